@@ -13,3 +13,5 @@ TECHNIQUE = "contract-based deductive verification of the real functions (VCs vi
 UNITS = [D.unit_validate(), RD.unit_as_delimited_keywords(), RD.unit_delimited_rows(), RD.unit_audit_csv()]
 from contracts import rowio_writers as RW
 UNITS += [RW.unit_delimited_row_writer_write_row(), RW.unit_delimited_row_writer_init(), RW.unit_row_writer_close(), RW.unit_row_writer_write_rows()]
+from contracts import validio as VIO
+UNITS += [VIO.unit_writer_sweep().also("C12")]
